@@ -7,22 +7,30 @@ and row counts as were visible before closing. Nothing that was committed is los
 uncommitted appears."
 
 Full statement (`reopen_id`): `logical (open (close s)) = logical s` for every reachable database
-state `s`.  Proved here (CORE, `reopen_id_partial`): the metadata path of close/open —
+state `s`.  Proved here (CORE, `reopen_id_bytes_partial`): the metadata path of close/open down to
+the bytes —
 (1) the state record written by the final persist is read back to the same schema/info offsets and
-    time (`state_roundtrip`, layout constants regenerated from state.go: `gen_state_layout`),
-(2) `ReadChain` of the schema chain and of the info chain written by the final persist (any merge
+    time, with the checksum the code uses (`state_roundtrip_real`; `state_roundtrip` for any
+    checksum function; layout constants regenerated from state.go: `gen_state_layout`; the 36 bytes
+    of every record the suites write are replayed through `encodeReal`/`decodeReal`),
+(2) the item codecs: `ReadSchema ∘ Schema.Write = id` (`schema_item_roundtrip`) and
+    `ReadInfo ∘ Info.Write = id` on merged infos (`info_item_roundtrip`), and the chunk frame +
+    item loop of `Hamt.Write`/`Hamt.read` (`schema_chunk_roundtrip`, `info_chunk_roundtrip`);
+    the real chunk and item bytes are replayed through these model functions,
+(3) `ReadChain` of the schema chain and of the info chain written by the final persist (any merge
     schedule) yield exactly the live entries of the in-memory tables (C15 `chain_roundtrip`).
-Missing for `reopen_id`: the byte level of the chunk/item encodings (C14), the btree/overlay save
-(C10/C16), the shutdown marker/`readTail`, and `linkFkeys_restores` (relinking from `Fk` rebuilds
-the incremental `FkToHere`; stated and proved with the C21 schema algebra, `Gsu.Props.C21`).
-These are tied by the model-free reopen suite over real files only.
+Missing for `reopen_id`: the btree/overlay save (C10/C16), the shutdown marker/`readTail`,
+`linkFkeys_restores` (relinking from `Fk` rebuilds the incremental `FkToHere`; stated and proved
+with the C21 schema algebra, `Gsu.Props.C21`), the derived `Ixspecs`, and the identification of
+store offsets with chunks.  These are tied by the model-free reopen suite over real files only.
 -/
 import Gsu.Proofs.StateRec
 import Gsu.Proofs.Chain
 import Gsu.Props.C15
 import Gsu.Gen.StateRec
+import Gsu.Proofs.MetaItem
 namespace Gsu.Props.C04
-open Gsu.Hamt Gsu.StateRec
+open Gsu.Hamt Gsu.StateRec Gsu.MetaItem
 
 /-- the state record round-trips: `readState (writeState t offSchema offInfo)` returns the same
 offsets and time, for any 2-byte checksum function, 5-byte offsets that precede the record -/
@@ -45,6 +53,11 @@ theorem gen_state_layout :
       Gsu.Gen.StateRec.magic1.length + Gsu.Gen.StateRec.dateSize +
       2 * Gsu.Gen.StateRec.smallOffsetLen + Gsu.Gen.StateRec.cksumLen +
       Gsu.Gen.StateRec.magic2.length := by decide
+
+/-- (G) util/cksum still stores `byte(cs), byte(cs>>8)` of crc32 with the Castagnoli table (shape
+checked by the extractor), whose reversed polynomial is the one the mirror `crc32c` uses -/
+theorem gen_cksum_poly : Gsu.Gen.StateRec.crcPoly = crcPoly.toNat ∧
+    ∀ b, (cksum b).length = Gsu.Gen.StateRec.cksumLen := ⟨by decide, fun _ => rfl⟩
 
 /-- **reopen_id (PARTIAL: metadata path)**. For reachable schema and info chains, after the final
 persist (each chain written with any number of merged chunks) the state record reads back to the
@@ -75,6 +88,129 @@ theorem reopen_id_trie_partial (hf : Nat → Nat)
     (∀ k, live ((trieOps hf).get rs.ht k) = live ((trieOps hf).get cs.ht k)) ∧
     (∀ k, live ((trieOps hf).get ri.ht k) = live ((trieOps hf).get ci.ht k)) :=
   ⟨Gsu.Props.C15.trie_chain_roundtrip hf hs ms ids hms rs hrs,
+   Gsu.Props.C15.trie_chain_roundtrip hf hi mi idi hmi ri hri⟩
+
+/-! ## byte level (the model functions below are replayed by `Drive/C04.lean` on the bytes the
+real code writes: state records, chunk frames, schema and info items) -/
+
+/-- the state record round-trips with the checksum the code uses (low 16 bits of crc32-Castagnoli,
+`Gsu.StateRec.cksum`, tied byte for byte by the `stenc`/`stdec` replay): no hypothesis on the
+checksum function left -/
+theorem state_roundtrip_real (t offS offI off : Nat) (ht : t < 2 ^ 64) (hs : offS < 2 ^ 40)
+    (hi : offI < 2 ^ 40) (hso : offS < off) (hio : offI < off) :
+    decodeReal off (encodeReal t offS offI) = some (offS, offI, t) :=
+  Gsu.StateRec.state_roundtrip cksum cksum_length t offS offI off ht hs hi hso hio
+
+/-- `ReadSchema (Schema.Write s)` = `s` for every schema that `Schema.Write` accepts (table,
+columns, derived, indexes with mode / columns / best key / foreign key table, mode, columns),
+followed by any bytes; the reader stops exactly at the end of the item.  Well-formed = keys carry
+no best key and foreign key columns only occur with a foreign key table (otherwise the read-back
+value is the normal form `normSchema s`, see `schema_item_roundtrip_norm`). -/
+theorem schema_item_roundtrip (s : Schema) (hwf : SchemaWF s) (bs rest : Bytes)
+    (h : writeSchema s = some bs) : readSchema (bs ++ rest) = some (s, rest) := by
+  rw [readSchema_writeSchema s bs rest h, normSchema_of_wf s hwf]
+
+theorem schema_item_roundtrip_norm (s : Schema) (bs rest : Bytes) (h : writeSchema s = some bs) :
+    readSchema (bs ++ rest) = some (normSchema s, rest) :=
+  readSchema_writeSchema s bs rest h
+
+/-- the hypotheses are satisfiable: a table `t (a,b) key(a) index(b) in u(a) cascade` and its bytes -/
+example : writeSchema ⟨[116], [[97], [98]], [], [⟨107, [[97]], none, ⟨[], 0, []⟩⟩,
+    ⟨105, [[98]], some [[97]], ⟨[117], 1, [[97]]⟩⟩]⟩ =
+  some [1, 0, 116, 2, 0, 1, 0, 97, 1, 0, 98, 0, 0, 2,
+        107, 1, 0, 1, 0, 97, 0, 0, 0, 0, 0,
+        105, 1, 0, 1, 0, 98, 1, 0, 1, 0, 97, 1, 0, 117, 1, 1, 0, 1, 0, 97] := by decide
+
+example : SchemaWF ⟨[116], [[97], [98]], [], [⟨107, [[97]], none, ⟨[], 0, []⟩⟩,
+    ⟨105, [[98]], some [[97]], ⟨[117], 1, [[97]]⟩⟩]⟩ := by
+  intro ix hix; simp at hix; rcases hix with rfl | rfl <;> simp [modeKey]
+
+/-- `ReadInfo (Info.Write i)` = `i` when the in-memory deltas are zero (Nrows = BtreeNrows and
+Size = BtreeSize: what `Meta.CheckAllMerged` asserts for a persisted state): table, row count,
+size, and for every index the btree root offset and tree levels -/
+theorem info_item_roundtrip (i : Info) (hn : i.nrows = i.btreeNrows) (hz : i.size = i.btreeSize)
+    (bs rest : Bytes) (h : writeInfo i = some bs) : readInfo (bs ++ rest) = some (i, rest) := by
+  rw [readInfo_writeInfo i bs rest h]
+  cases i; simp only [normInfo] at *; subst hn; subst hz; rfl
+
+example : writeInfo ⟨[116], [⟨300, 1⟩], 5, 70, 5, 70⟩ =
+  some [1, 0, 116, 5, 0, 0, 0, 70, 0, 0, 0, 0, 1, 44, 1, 0, 0, 0, 1] := by decide
+
+/-- in general the read-back info has lost the deltas -/
+theorem info_item_roundtrip_norm (i : Info) (bs rest : Bytes) (h : writeInfo i = some bs) :
+    readInfo (bs ++ rest) = some (normInfo i, rest) :=
+  readInfo_writeInfo i bs rest h
+
+/-- a schema chunk (`Hamt.Write`: size, prevOff, items checksum, the items, crc) is read back by
+`Hamt.read` + `ReadSchema` to the same prevOff, checksum and items, whatever follows it in the store -/
+theorem schema_chunk_roundtrip (xs : List Schema) (hwf : ∀ s ∈ xs, SchemaWF s) (prev : Int) (ck : Nat)
+    (body bs tail : Bytes) (hb : writeItems writeSchema xs = some body)
+    (hc : writeChunk prev ck body = some bs) :
+    readChunk (bs ++ tail) = some (prev.toNat, ck, body) ∧
+    readItems readSchema body.length body = some xs := by
+  refine ⟨by simpa using (readChunk_writeChunk prev ck body bs tail hc).1, ?_⟩
+  rw [readItems_writeItems writeSchema readSchema normSchema readSchema_writeSchema
+    writeSchema_ne_nil xs body hb body.length (Nat.le_refl _)]
+  congr 1
+  calc xs.map normSchema = xs.map id := List.map_congr_left fun s hs => normSchema_of_wf s (hwf s hs)
+    _ = xs := List.map_id _
+
+/-- the same for an info chunk -/
+theorem info_chunk_roundtrip (xs : List Info)
+    (hm : ∀ i ∈ xs, i.nrows = i.btreeNrows ∧ i.size = i.btreeSize) (prev : Int) (ck : Nat)
+    (body bs tail : Bytes) (hb : writeItems writeInfo xs = some body)
+    (hc : writeChunk prev ck body = some bs) :
+    readChunk (bs ++ tail) = some (prev.toNat, ck, body) ∧
+    readItems readInfo body.length body = some xs := by
+  refine ⟨by simpa using (readChunk_writeChunk prev ck body bs tail hc).1, ?_⟩
+  rw [readItems_writeItems writeInfo readInfo normInfo readInfo_writeInfo
+    writeInfo_ne_nil xs body hb body.length (Nat.le_refl _)]
+  congr 1
+  have : ∀ i ∈ xs, normInfo i = id i := by
+    intro i hi
+    obtain ⟨h1, h2⟩ := hm i hi
+    cases i; simp only [normInfo, id] at *; subst h1; subst h2; rfl
+  calc xs.map normInfo = xs.map id := List.map_congr_left this
+    _ = xs := List.map_id _
+
+/-- **reopen_id (PARTIAL: metadata path down to the bytes)**.  For reachable schema and info chains
+(trie of the code, any merge schedule of the final persist), with `σ`/`ι` giving the schema / info
+an abstract chain item denotes:
+(1) the state record written with the real checksum reads back to the offsets and time written;
+(2) every chunk of the written schema chain, encoded by the real frame and `Schema.Write`, is decoded
+    by `Hamt.read`/`ReadSchema` to the same prevOff, checksum and items; (3) the same for info;
+(4) reading the chains of these items back yields exactly the live schema and info entries.
+Still missing for the full `reopen_id`: btree/overlay save (C10/C16), the shutdown marker/`readTail`,
+`linkFkeys` (C21), and the identification of store offsets with chunks (suite only). -/
+theorem reopen_id_bytes_partial (hf : Nat → Nat)
+    {cs ci : Chain T} (hs : Gsu.Props.C15.Reach (trieOps hf) cs) (hi : Gsu.Props.C15.Reach (trieOps hf) ci)
+    (ms mi ids idi : Nat) (hms : ms ≤ cs.chunks.length) (hmi : mi ≤ ci.chunks.length)
+    (rs ri : Chain T)
+    (hrs : readChain (trieOps hf) (writeChainWith (trieOps hf) cs ms ids).2.chunks = some rs)
+    (hri : readChain (trieOps hf) (writeChainWith (trieOps hf) ci mi idi).2.chunks = some ri)
+    (t offS offI off : Nat) (ht : t < 2 ^ 64) (hso : offS < off) (hio : offI < off)
+    (hoff : off < 2 ^ 40)
+    (σ : Item → Schema) (hσ : ∀ it, SchemaWF (σ it))
+    (ι : Item → Info) (hι : ∀ it, (ι it).nrows = (ι it).btreeNrows ∧ (ι it).size = (ι it).btreeSize) :
+    decodeReal off (encodeReal t offS offI) = some (offS, offI, t) ∧
+    (∀ ch ∈ (writeChainWith (trieOps hf) cs ms ids).2.chunks, ∀ (prev : Int) (body bs tail : Bytes),
+      writeItems writeSchema (ch.items.map σ) = some body → writeChunk prev ch.ck body = some bs →
+      readChunk (bs ++ tail) = some (prev.toNat, ch.ck, body) ∧
+      readItems readSchema body.length body = some (ch.items.map σ)) ∧
+    (∀ ch ∈ (writeChainWith (trieOps hf) ci mi idi).2.chunks, ∀ (prev : Int) (body bs tail : Bytes),
+      writeItems writeInfo (ch.items.map ι) = some body → writeChunk prev ch.ck body = some bs →
+      readChunk (bs ++ tail) = some (prev.toNat, ch.ck, body) ∧
+      readItems readInfo body.length body = some (ch.items.map ι)) ∧
+    (∀ k, live ((trieOps hf).get rs.ht k) = live ((trieOps hf).get cs.ht k)) ∧
+    (∀ k, live ((trieOps hf).get ri.ht k) = live ((trieOps hf).get ci.ht k)) :=
+  ⟨state_roundtrip_real t offS offI off ht (by omega) (by omega) hso hio,
+   fun ch _ prev body bs tail hb hc =>
+     schema_chunk_roundtrip _ (by intro s hs; simp at hs; obtain ⟨it, _, rfl⟩ := hs; exact hσ it)
+       prev ch.ck body bs tail hb hc,
+   fun ch _ prev body bs tail hb hc =>
+     info_chunk_roundtrip _ (by intro s hs; simp at hs; obtain ⟨it, _, rfl⟩ := hs; exact hι it)
+       prev ch.ck body bs tail hb hc,
+   Gsu.Props.C15.trie_chain_roundtrip hf hs ms ids hms rs hrs,
    Gsu.Props.C15.trie_chain_roundtrip hf hi mi idi hmi ri hri⟩
 
 end Gsu.Props.C04
